@@ -29,6 +29,20 @@ static std::unique_ptr<Mesh> readMesh(Reader& r,std::vector<Vertex>& V) {
     }
     return m;
 }
+// The cached per-triangle normals (Triangle::normal(), written by Mesh::update) are not an input of the checks: the answer is
+// a function of the current vertex positions.  mode 0: never computed (zero vectors); 1: those of the current positions;
+// 2: stale - those of an earlier pose of the same mesh (every vertex has since been moved in memory by the rigid map
+// (x,y,z) -> (z,-x,y)+(3,1,2), as a caller editing geo.vertices() does, with no update() in between)  [seeded C12-17]
+static void cacheNormals(Mesh& m,unsigned mode) {
+    auto pose = [&](const Vertex& v) { return (mode==2) ? Vect3(v.z()+3,-v.x()+1,v.y()+2) : Vect3(v.x(),v.y(),v.z()); };
+    if (mode==0) return;
+    for (auto& t : m.triangles()) {
+        const Vect3 a=pose(t.vertex(0)), b=pose(t.vertex(1)), c=pose(t.vertex(2));
+        Vect3 n=crossprod(b-a,c-a); const double l=n.norm();
+        if (l>0) n=n*(1.0/l);
+        t.normal()=n;
+    }
+}
 static bool exists(const std::string& p) { struct stat st; return stat(p.c_str(),&st)==0; }
 
 static Wire c12(Reader& r) {
@@ -43,12 +57,14 @@ static Wire c12(Reader& r) {
         double den=(double)r.z();
         std::vector<Vertex> V; readVerts(r,den,V);
         auto m=readMesh(r,V);
+        cacheNormals(*m,(unsigned)(V.size()%3));
         return Wire{ST_OK,m->has_self_intersection()?1:0};
     }
     if (op==11) {
         double den=(double)r.z();
         std::vector<Vertex> V; readVerts(r,den,V);
         auto m1=readMesh(r,V); auto m2=readMesh(r,V);
+        cacheNormals(*m1,(unsigned)(V.size()%3)); cacheNormals(*m2,(unsigned)((V.size()/3)%3));
         return Wire{ST_OK,m1->intersection(*m2)?1:0};
     }
     if (op==13) {
